@@ -7,11 +7,19 @@ import puan.modules.configurator  # noqa: subclasses must be loaded before monit
 from .. import adapters, monitor, refmodel, recipes
 
 
-def domain(model, allow_prefixed=False, allow_ref_leaf=False):
-    """common domain of C01..C08: validated model. raises OutOfScope otherwise"""
+def domain(model, allow_prefixed=False, allow_ref_leaf=False, recipe=None):
+    """common domain of C01..C08: validated model. raises OutOfScope otherwise.
+    With `recipe`: the leaves of the built object must carry the bounds they were declared with (every statement quantifies over the
+    declared box; an oracle that reads the box back from the object would agree with a constructor that stored something else)"""
     v = adapters.validated(model, need_no_prefixed=not allow_prefixed, allow_ref_leaf=allow_ref_leaf)
     if v is None:
         raise monitor.OutOfScope()
+    if recipe is not None and monitor.CTX is not None:
+        graph = v[0]
+        declared = refmodel.recipe_leaves(recipe)
+        bad = {str(i): [list(map(int, declared[i])), list(map(int, graph[i]["b"]))] for i in declared
+               if i in graph and graph[i]["leaf"] and tuple(map(int, graph[i]["b"])) != tuple(map(int, declared[i]))}
+        monitor.CTX.check(not bad, "leaf-bounds-as-declared", lambda: {"recipe": recipe, "declared_vs_stored": bad})
     return v
 
 
